@@ -18,6 +18,8 @@ import Driver.PairReq
 import Driver.NetLossy
 import Driver.Facet
 import Driver.NetEph
+import Driver.NetBal
+import Driver.TimeSpec
 open Lean Driver
 
 def dispatch (j : Json) : R Json := do
@@ -29,7 +31,7 @@ def dispatch (j : Json) : R Json := do
   | "send" => Driver.Send.handle op j
   | "loop" => Driver.Loop.handle op j
   | "c09" => Driver.C09.handle op j
-  | "c08" => Driver.C08.handle op j
+  | "c08" => if op == "c08.timespec" then Driver.TimeSpec.handle op j else Driver.C08.handle op j
   | "c18" => if op == "c18.lock" then Driver.C18Lock.handle op j else if op == "c18.facetnames" then Driver.Facet.handle op j else Driver.C08.handle op j
   | "c10" => Driver.C10.handle op j
   | "c13" => Driver.C13.handle op j
@@ -42,6 +44,7 @@ def dispatch (j : Json) : R Json := do
   | "net" => Driver.Net.handle op j
   | "netl" => Driver.NetLossy.handle op j
   | "nete" => Driver.NetEph.handle op j
+  | "netb" => Driver.NetBal.handle op j
   | "pairreq" => Driver.PairReq.handle op j
   | "ping" => return obj [("pong", Json.bool true)]
   | _ => throw s!"unknown op prefix {pfx}"
